@@ -102,6 +102,11 @@ class PhaseMonitor(Monitor):
     def on_quiescent(self, world):
         st = world.state
         enabled = [g for g, qs in GROUPS.items() if any(getattr(st, q)() for q in qs)]
+        if st.status and not enabled and st.street is not None and st.showdown_index is not None and any(
+                c.unknown_status for c in st.hole_cards[st.showdown_index]):
+            # scope bound (DESIGN C07/C08): the player to show holds unknown cards, so the default-argument show is
+            # refused; showing explicit cards or mucking is the available operation
+            enabled = ['SHOW']
         if st.status:
             if not enabled:
                 raise Violation('C07.enabled', 'the hand is not over but no operation is available '
